@@ -9,6 +9,7 @@ pub mod c02;
 pub mod c03;
 pub mod c07;
 pub mod c09;
+pub mod c10;
 
 pub type Monitor = fn(&mut CaseCtx);
 
@@ -19,6 +20,7 @@ pub fn lookup(id: &str) -> Option<Monitor> {
         "C03" => c03::case,
         "C07" => c07::case,
         "C09" => c09::case,
+        "C10" => c10::case,
         _ => return None,
     })
 }
